@@ -141,22 +141,30 @@ def run_spec_search(ctx, rng, ntrees, npats, on_case=None, cfgs=CFGS, tree_size=
                     if dot_literal_alt(pp):
                         extra = set(x for x in extra if not any(s in ('.', '..') for s in x.split('/')))
                     if missing or extra:
-                        kid = None
-                        if extra and not missing and all(hid(x) for x in extra) and group_first(pp):
-                            kid = 'C03-group-then-wild'
-                        elif extra and not missing and all(hid(x) for x in extra) and star_then_wild(pp):
-                            kid = 'C03-star-guard-inside-optional'
-                        elif extra and not missing and group_first(pp):
-                            kid = 'C02-group-segment-empty'
-                        elif extra and not missing and c['matchbase'] and c['follow'] and c['globstarlong'] and \
-                                all(sg in ('g', 'G') for sg in pp.split(':')[1].split('/')) and len(pp.split(':')[1].split('/')) > 1:
-                            kid = 'C05-matchbase-merged-globstars'
-                        elif missing and not extra and any(sg.startswith(('xS', 'xP')) for sg in pp.split(':')[1].split('/')) and \
+                        # each side of the difference must be explained by a listed finding (two may meet in one pattern)
+                        kid_x = None
+                        if extra:
+                            if all(hid(x) for x in extra) and group_first(pp):
+                                kid_x = 'C03-group-then-wild'
+                            elif all(hid(x) for x in extra) and star_then_wild(pp):
+                                kid_x = 'C03-star-guard-inside-optional'
+                            elif group_first(pp):
+                                kid_x = 'C02-group-segment-empty'
+                            elif c['matchbase'] and c['follow'] and c['globstarlong'] and \
+                                    all(sg in ('g', 'G') for sg in pp.split(':')[1].split('/')) and len(pp.split(':')[1].split('/')) > 1:
+                                kid_x = 'C05-matchbase-merged-globstars'
+                        kid_m = None
+                        if missing and any(sg.startswith(('xS', 'xP')) for sg in pp.split(':')[1].split('/')) and \
                                 all(any('.' in part[1:] for part in x.split('/')) for x in missing):
                             # a repeated group at the start of a segment re-applies its dot guard on later iterations
-                            kid = 'C01-group-dot-guard-repeat'
-                        if kid and ctx.is_known(lambda e, kid=kid: e['id'] == kid):
-                            known.setdefault(kid, (pattern, corr.flag_names(fv), sorted(extra)[:3] if extra else 'nothing for %r' % sorted(missing)[:3]))
+                            kid_m = 'C01-group-dot-guard-repeat'
+                        ok_x = (not extra) or (kid_x and ctx.is_known(lambda e, k=kid_x: e['id'] == k))
+                        ok_m = (not missing) or (kid_m and ctx.is_known(lambda e, k=kid_m: e['id'] == k))
+                        if ok_x and ok_m:
+                            if extra:
+                                known.setdefault(kid_x, (pattern, corr.flag_names(fv), sorted(extra)[:3]))
+                            if missing:
+                                known.setdefault(kid_m, (pattern, corr.flag_names(fv), 'nothing for %r' % sorted(missing)[:3]))
                         else:
                             ctx.counterexample(
                                 'glob(%r, %s): %s' % (pattern, corr.flag_names(fv),
